@@ -502,7 +502,7 @@ def main(argv=None):
             "known_findings_replayed": dict(known_hit),
             "exhaustive_spaces": ctx.exhaustive,
             "exhaustive": bool(ctx.exhaustive) and tier == "thorough",
-            "notes": ctx.notes,
+            "notes": ctx.notes + ([{"harness_crash": infra[-1500:]}] if infra else []),
         },
         "assumptions": entry.get("assumptions", []),
         "wall_s": round(time.time() - t0, 2),
@@ -515,9 +515,11 @@ def main(argv=None):
     os.makedirs(os.path.join(ROOT, "evidence"), exist_ok=True)
     with open(os.path.join(ROOT, "evidence", f"{prop}.json"), "w") as f:
         json.dump(ev, f, indent=1, sort_keys=True, default=str)
-    if infra:
+    if infra and not n_viol:
         print(f"INFRA-ERROR property={prop} correspondence harness crashed (see stderr)")
         return 2
+    if infra:
+        log("the correspondence harness crashed after a violation had been established; reporting the violation")
     log(f"{prop} {tier}: obligations {len(discharged)}/{len(obligations)}, evaluations {ctx.evaluations}, "
         f"distinct non-trivial {len(ctx.nontrivial)}, disagreements {len(ctx.disagreements)}, "
         f"violations {n_viol}, known {dict(known_hit)}, {ev['wall_s']} s")
